@@ -558,12 +558,6 @@ def opBipFromString (args0 : List String) : String :=
 
 def xyStr (p : Nat × Nat) : String := natHex32 p.1 ++ " " ++ natHex32 p.2
 
-/-- the (0,0) identity convention of the adaptor -/
-def ptOfXY (p : Nat × Nat) : Pt := if p.1 = 0 ∧ p.2 = 0 then none else some p
-def xyOfPt : Pt → Nat × Nat
-  | none => (0, 0)
-  | some q => q
-
 def opAdAdd (args : List String) : String :=
   match args.mapM hexNat with
   | some [x1, y1, x2, y2] =>
